@@ -1,143 +1,415 @@
 """C12 - editing a molecule keeps atoms, bonds and interactions consistent.
 
-spec/MoleculeEdit.tla        heap of molecules, one action per editing call, NoDangling / UniqueKeys invariants,
-                             MergeConserves / Frame action properties                          (MC + SIM)
-spec/Trace_MoleculeEdit.tla  batch validation of histories recorded from the real class        (TRACE)
+spec/MoleculeEdit.tla        a heap of Molecules and Blocks + the molecule list of one System; one action per editing call
+                             (add / remove atoms singly, in bulk, through a generator; add / add-or-replace (with versions and
+                             citations) / remove interactions; make_edges_from_interactions; copy, subgraph, networkx's own
+                             Graph.copy; merge_molecule between molecules, of a Block (string keys) into a molecule, into a
+                             Block (TypeError); Block.to_molecule; MergeAllMolecules; MergeChains(chains / all_chains)),
+                             invariants NoDangling / UniqueKeys / CacheSound, action properties MergeConserves,
+                             MergeAllConserves, MergeChainsPartition, ToMolFaithful, MakeEdgesSound, Frame   (MC + SIM)
+spec/Trace_MoleculeEdit.tla  batch validation of histories recorded from the real classes                       (TRACE)
 
-spec -> code: every transition of the MC state graph (dot dump with action labels) is replayed on real
-vermouth Molecule objects along the BFS tree (objects are deep-copied at each tree node so internal caches follow
-the history), and every simulated behaviour is replayed step by step; after each call the projection of every heap
-cell and the error outcome must equal TLC's next state.
-code -> spec: seeded random histories on real objects are logged (call, arguments, projection of the touched
-cell, error) and validated by TLC step by step."""
+Three exhaustive configurations of the one module (`Acts` selects the calls): `edit` (2 cells, the editing API), `system`
+(3 cells + molecule list: MergeAllMolecules / MergeChains interleaved with edits), `block` (2 molecules + 1 Block with atom
+NAMES as keys, two interaction types of which one makes bonds).
+
+spec -> code: every transition of the three state graphs (dot dump with action labels) is replayed on real objects along
+the BFS tree (objects are deep-copied at each tree node so internal caches follow the history), and every simulated
+behaviour of larger instances is replayed step by step; after each call the projection of every heap cell, the molecule
+list of the system and the error outcome must equal TLC's next state.
+code -> spec: seeded random histories on real objects, and editing histories of REAL pipeline molecules (harness/c12_more.py:
+DoMapping output of the tier-0 structures, force-field blocks), are logged (call, arguments, projection of the whole world,
+error) and validated by TLC step by step with the same effect operators.
+
+BOOKKEEPING (meta, citations, log entries, nrexcl, force field, the highest-key cache) travels in the same states but is
+judged apart: the statement of C12 speaks of atoms, bonds and interactions.  The model describes the tree AS FOUND (three
+switches - LogExtra, CitShared, LogPurge - are probed on the real classes at start-up), TLC marks every transition on which a
+named clause of the DEMANDED bookkeeping fails (`obs`), the replay confirms the marked transitions on the real objects, and
+any other difference in a bookkeeping field is counted as `differs:<field>`.  None of this is ever a VIOLATION; the counts are
+in the evidence (`bookkeeping`)."""
 import collections
 import copy
+import hashlib
+import json
 import multiprocessing as mp
 import os
 import random
 import re
+import shutil
 
 from . import common, tlc, tlaval
 
 PID = 'C12'
 
+# ---------------------------------------------------------------- model literals
+T1 = ('bonds',)
+T2 = ('bonds', 'impropers')
+
+
+def mol(nodes=(), edges=(), inter=None, maxnode=-1, meta='', cit=('vermouth',), log=(), nrexcl=-1, ff='', types=T1):
+    """A MoleculeEdit molecule as a Python value (tlaval.to_tla turns it into the TLA+ literal).
+    nodes: (key, resid, cg, tag); inter: {type: [(atoms, ver, tag, edge)]}; log: [(msg, [[(name, key), ...], ...])]."""
+    inter = inter or {}
+    return {'nodes': tuple({'key': k, 'resid': r, 'cg': c, 'tag': t} for k, r, c, t in nodes),
+            'edges': frozenset(tuple(e) for e in edges),
+            'inter': {t: tuple({'atoms': tuple(a), 'ver': v, 'tag': g, 'edge': e} for a, v, g, e in inter.get(t, ())) for t in types},
+            'maxnode': maxnode,
+            'bk': {'meta': meta, 'cit': frozenset(cit),
+                   'log': tuple({'msg': m, 'ems': tuple(tuple(tuple(p) for p in em) for em in ems)} for m, ems in log),
+                   'nrexcl': nrexcl, 'ff': ff}}
+
+
+def _heaps(*hs):
+    return '{' + ', '.join('(' + ' @@ '.join('%d :> %s' % (i, tlaval.to_tla(m)) for i, m in sorted(h.items())) + ')'
+                           for h in hs) + '}'
+
+
+def _acts(names):
+    return '{' + ','.join('"%s"' % a for a in names) + '}'
+
+
 ATTR = '<<[resid |-> 1, cg |-> 1, tag |-> "p"], [resid |-> 2, cg |-> 3, tag |-> "q"]>>'
-MOL_A = ('[nodes |-> <<[key |-> 0, resid |-> 1, cg |-> 1, tag |-> "p"], [key |-> 1, resid |-> 2, cg |-> 3, tag |-> "q"]>>, '
-         'edges |-> {<<0,1>>}, inter |-> [t \\in Types |-> IF t = "bonds" THEN <<[atoms |-> <<0,1>>, ver |-> 0, tag |-> "s"]>> ELSE <<>>], maxnode |-> -1]')
-MOL_B = '[nodes |-> <<[key |-> 4, resid |-> 1, cg |-> 2, tag |-> "q"]>>, edges |-> {}, inter |-> [t \\in Types |-> <<>>], maxnode |-> -1]'
-MOL_C = ('[nodes |-> <<[key |-> 2, resid |-> 3, cg |-> 1, tag |-> "p"], [key |-> 0, resid |-> 1, cg |-> 2, tag |-> "q"]>>, '
-         'edges |-> {<<0,2>>}, inter |-> [t \\in Types |-> IF t = "bonds" THEN <<[atoms |-> <<2,0>>, ver |-> 1, tag |-> "s"]>> ELSE <<>>], maxnode |-> -1]')
-
-BASE = {'Id': '{1,2}', 'Types': '{"bonds"}', 'Key': '{0,1,2,3}', 'AttrChoice': ATTR,
-        'InitMols': '{EmptyMol, %s, %s}' % (MOL_A, MOL_B),
-        'AtomSeqs': '{<<0,1>>,<<1,2>>,<<1,0>>}', 'NodeSets': '{{1},{3},{2,3},{0,1}}',
-        'MaxNodes': '5', 'MaxInter': '3', 'MaxResid': '7', 'MaxDepth': '2',
-        'CacheModel': '"repaired"', 'OneShotPurges': 'TRUE'}
-
-CFG = """SPECIFICATION Spec
-CONSTRAINT Bounded
-INVARIANT NoDangling
-INVARIANT UniqueKeys
-PROPERTY MergeConserves
-PROPERTY Frame
-"""
-
 ATTRS = [{'resid': 1, 'cg': 1, 'tag': 'p'}, {'resid': 2, 'cg': 3, 'tag': 'q'}]
-TYPES = ['bonds']
+
+E1 = mol()
+A1 = mol([(0, 1, 1, 'p'), (1, 2, 3, 'q')], [(0, 1)], {'bonds': [((0, 1), 0, 's', True)]}, meta='mA', cit=('vermouth', 'ca'),
+         log=[('w {X}', [[('X', 1)]])])
+B1 = mol([(4, 1, 2, 'q')])
+# a molecule as a merge leaves it: highest-key cache warm
+W1 = mol([(1, 2, 2, 'p'), (2, 3, 1, 'q')], [(1, 2)], {'bonds': [((1, 2), 0, 's', True)]}, maxnode=2, log=[('i {Y}', [[('Y', 2)]])])
+# the last atom inserted is not the atom with the highest key
+C1 = mol([(2, 3, 1, 'p'), (0, 1, 2, 'q')], [(0, 2)], {'bonds': [((2, 0), 1, 's', True)]})
+P1 = mol([(0, 1, 1, 'p'), (1, 2, 3, 'p')], [(0, 1)], {'bonds': [((0, 1), 0, 's', True)]}, cit=('vermouth', 'cp'), meta='mP',
+         log=[('w {X}', [[('X', 1)]])])
+Q1 = mol([(4, 1, 2, 'q')], cit=('vermouth', 'cq'), log=[('w {X}', [[('X', 4)]])])
+X2 = mol([(0, 1, 1, 'p')], nrexcl=2)                       # refused by every merge with the others (nrexcl)
+G1 = mol([(3, 2, 1, 'q')], ff='G')                         # refused (force field)
+BL = mol([('a', 1, 1, 'a'), ('b', 1, 2, 'b'), ('c', 2, 2, 'c')], [],
+         {'bonds': [(('a', 'b'), 0, 's', True), (('b', 'c'), 0, 's', False)], 'impropers': [(('a', 'b', 'c'), 0, 'i', True)]},
+         cit=('vermouth', 'cb'), log=[('t {a}', [])], types=T2)
+BM = mol([('a', 1, 1, 'a'), ('b', 1, 1, 'b')], [('a', 'b')], {'bonds': [(('a', 'b'), 0, 's', True)]}, types=T2)
+E2 = mol(types=T2)
+A2 = mol([(0, 1, 1, 'p'), (1, 2, 3, 'q')], [(0, 1)], {'bonds': [((0, 1), 0, 's', True)]}, meta='mA', cit=('vermouth', 'ca'),
+         log=[('w {X}', [[('X', 1)]])], types=T2)
+W2 = mol([(1, 2, 2, 'p'), (2, 3, 1, 'q')], [(1, 2)], {'bonds': [((1, 2), 0, 's', True)]}, maxnode=2, types=T2)
+
+COMMON = {'BlockIds': '{}', 'EdgeTypes': '{"bonds"}', 'InitSys': '{<<>>}', 'BKey': '{}', 'BAtomSeqs': '{}', 'BRank': '<<>>',
+          'AttrChoice': ATTR, 'ChainSets': '{}', 'Offsets': '{}', 'MaxResid': '7', 'CacheModel': '"tracked"',
+          'OneShotPurges': 'TRUE', 'SysFF': '""'}
+EDIT_ACTS = ['AddNode', 'AddNodesFrom', 'SetResid', 'RemoveNode', 'RemoveNodesFrom', 'AddEdge', 'AddInter', 'AddOrReplace',
+             'AddOrReplaceCite', 'RemoveInter', 'Copy', 'Subgraph', 'GraphCopy', 'Merge']
+SYS_ACTS = ['MergeAll', 'MergeChains', 'MergeChainsAll', 'Merge', 'AddNodesFrom', 'RemoveNode', 'AddNode', 'Copy', 'SetResid']
+BLK_ACTS = ['ToMol', 'Merge', 'MakeEdges', 'AddNode', 'RemoveNode', 'AddInter', 'AddInterNoEdge', 'AddOrReplaceCite']
+
+PROPS_COMMON = ('SPECIFICATION Spec\nCONSTRAINT Bounded\nINVARIANT NoDangling\nINVARIANT UniqueKeys\nINVARIANT SysWellFormed\n'
+                'INVARIANT PartsWellFormed\nINVARIANT CacheSound\nPROPERTY MergeConserves\nPROPERTY Frame\n')
+CFG_TEXT = {
+    'edit': PROPS_COMMON,
+    'system': PROPS_COMMON + 'PROPERTY MergeAllConserves\nPROPERTY MergeChainsPartition\n',
+    'block': PROPS_COMMON + 'PROPERTY ToMolFaithful\nPROPERTY MakeEdgesSound\n',
+}
+CFG_ALL = PROPS_COMMON + 'PROPERTY MergeAllConserves\nPROPERTY MergeChainsPartition\nPROPERTY ToMolFaithful\nPROPERTY MakeEdgesSound\n'
+BLOCKS = {'edit': frozenset(), 'system': frozenset(), 'block': frozenset({3})}
+ACTS = {'edit': EDIT_ACTS, 'system': SYS_ACTS, 'block': BLK_ACTS}
+
+
+def configs(tier, book):
+    """name -> constants of the exhaustive models (quick: depth 2; thorough: depth 3 and more initial heaps)."""
+    thorough = tier == 'thorough'
+    edit_heaps = [{1: E1, 2: A1}, {1: A1, 2: B1}, {1: A1, 2: W1}, {1: W1, 2: A1}, {1: B1, 2: E1}, {1: W1, 2: E1}, {1: A1, 2: A1},
+                  {1: B1, 2: W1}]
+    sys_heaps = [{1: P1, 2: Q1, 3: E1}, {1: P1, 2: Q1, 3: C1}, {1: W1, 2: C1, 3: E1}]
+    blk_heaps = [{1: E2, 2: A2, 3: BL}, {1: W2, 2: E2, 3: BM}]
+    if thorough:
+        edit_heaps += [{1: C1, 2: A1}, {1: A1, 2: C1}, {1: E1, 2: E1}, {1: A1, 2: X2}, {1: G1, 2: B1}]
+        sys_heaps += [{1: P1, 2: X2, 3: Q1}, {1: Q1, 2: P1, 3: G1}]
+        blk_heaps += [{1: A2, 2: W2, 3: BL}]
+    depth = '3' if thorough else '2'
+    out = {}
+    out['edit'] = dict(COMMON, Id='{1,2}', Types='{"bonds"}', Key='{0,1,2,3}', InitHeaps=_heaps(*edit_heaps),
+                       AtomSeqs='{<<0,1>>,<<1,2>>,<<1,0>>}', NodeSets='{{1},{3},{2,3},{0,1}}', MaxNodes='5', MaxInter='3',
+                       Acts=_acts(EDIT_ACTS), MaxDepth=depth)
+    out['system'] = dict(COMMON, Id='{1,2,3}', Types='{"bonds"}', Key='{0,5}' if not thorough else '{0,2,5}',
+                         InitHeaps=_heaps(*sys_heaps), InitSys='{<<1,2>>, <<2,1>>, <<1,2,3>>, <<3,1>>}',
+                         ChainSets='{{"p"},{"q"},{"p","q"}}', AtomSeqs='{<<0,1>>}', NodeSets='{{2,3},{5}}', MaxNodes='6',
+                         MaxInter='4', Acts=_acts(SYS_ACTS), MaxDepth=depth)
+    out['block'] = dict(COMMON, Id='{1,2,3}', BlockIds='{3}', Types='{"bonds","impropers"}', Key='{0,5}', BKey='{"a","d"}',
+                        BAtomSeqs='{<<"a","b">>, <<"b","c">>}', BRank='[a |-> 1, b |-> 2, c |-> 3, d |-> 4]',
+                        InitHeaps=_heaps(*blk_heaps), Offsets='{<<0,0,0>>, <<3,2,1>>}', AtomSeqs='{<<0,1>>,<<3,4>>}',
+                        NodeSets='{}', MaxNodes='6', MaxInter='5', Acts=_acts(BLK_ACTS), MaxDepth='3' if thorough else '2')
+    for c in out.values():
+        c.update(book)
+    return out
+
+
+def sim_configs(book):
+    """larger instances for -simulate (depth 12)."""
+    out = configs('quick', book)
+    out['edit'].update({'MaxDepth': '12', 'Key': '{0,1,2,3,4,5,6}', 'MaxNodes': '8', 'MaxInter': '5', 'MaxResid': '30',
+                        'NodeSets': '{{1},{3},{2,3},{0,1},{4,5},{5,6},{6}}',
+                        'AtomSeqs': '{<<0,1>>,<<1,2>>,<<1,0>>,<<2,3>>,<<3,4>>,<<4,5>>}',
+                        'InitHeaps': _heaps({1: E1, 2: A1}, {1: A1, 2: B1}, {1: A1, 2: W1}, {1: W1, 2: C1}, {1: C1, 2: E1})})
+    out['system'].update({'MaxDepth': '10', 'Key': '{0,1,2,5,8}', 'MaxNodes': '10', 'MaxResid': '40',
+                          'NodeSets': '{{2,3},{5},{6,7}}', 'Acts': _acts(SYS_ACTS + ['RemoveNodesFrom', 'Subgraph', 'AddInter']),
+                          'AtomSeqs': '{<<0,1>>,<<1,2>>,<<2,3>>}',
+                          'InitHeaps': _heaps({1: P1, 2: Q1, 3: E1}, {1: P1, 2: Q1, 3: C1}, {1: W1, 2: C1, 3: E1}, {1: Q1, 2: W1, 3: P1})})
+    out['block'].update({'MaxDepth': '10', 'Key': '{0,1,5,6}', 'MaxNodes': '10', 'MaxInter': '8', 'MaxResid': '40',
+                         'AtomSeqs': '{<<0,1>>,<<3,4>>,<<1,2>>,<<5,6>>}', 'BKey': '{"a","b","d"}',
+                         'Acts': _acts(BLK_ACTS + ['Copy', 'Subgraph', 'RemoveNodesFrom']), 'NodeSets': '{{0,1},{3},{5,6}}'})
+    return out
+
+
+# ---------------------------------------------------------------- the tree as found (bookkeeping switches)
+def probe_bookkeeping():
+    """Which of the modelled bookkeeping variants the real classes show today (tiny probes on the real code).
+    Bookkeeping only: nothing the statement of C12 speaks of depends on these switches."""
+    from vermouth.molecule import Molecule
+    a, b = Molecule(), Molecule()
+    a.add_node(0, resid=1, charge_group=1)
+    b.add_node(0, resid=1, charge_group=1)
+    b.log_entries[30]['m {X}'].append({'X': 0})
+    a.merge_molecule(b)
+    n = len(a.log_entries[30]['m {X}'])
+    sub = a.subgraph([0])
+    b.remove_node(0)
+    left = len(b.log_entries[30]['m {X}'])
+    return {'LogExtra': '"always"' if n >= 2 else '"blocks"',
+            'CitShared': 'TRUE' if sub.citations is a.citations else 'FALSE',
+            'LogPurge': 'TRUE' if left == 0 else 'FALSE'}
+
+
+DEMANDED = {'LogExtra': '"blocks"', 'CitShared': 'FALSE', 'LogPurge': 'TRUE'}
+CLAUSES = {
+    'LogKept': 'merge: every log entry of both operands kept, the receiver\'s emissions first and unchanged',
+    'LogRenumbered': 'merge: the newcomer\'s emissions follow with their atom references renumbered by the correspondence',
+    'LogNothingAdded': 'merge: nothing else is added (only a Block, whose entries refer to atom names, gets one binding per entry)',
+    'CitKept': 'merge: the citations are the union of both',
+    'MetaKept': 'merge: meta, force field and nrexcl of a non-empty receiver unchanged',
+    'MergeLogTotal': 'merge: no KeyError after the atoms were merged because a log entry of the newcomer refers to a removed atom',
+    'BookFrame': 'a call on one molecule leaves the bookkeeping of every other molecule alone',
+    'LogNoDangling': 'every atom reference of a log emission is an atom still present',
+    'CacheSound': 'a highest-key cache that is present is right',
+}
 
 
 # ---------------------------------------------------------------- real objects
-def new_molecule():
-    from vermouth.molecule import Molecule
-    return Molecule()
+def attr_kwargs(a):
+    return {'resid': a['resid'], 'charge_group': a['cg'], 'atomname': a['tag'], 'chain': a['tag']}
 
 
-def build_from_state(st_mol):
-    """Real molecule for an initial model state (bulk constructors only: no cached state)."""
-    m = new_molecule()
-    m.add_nodes_from((n['key'], {'resid': n['resid'], 'charge_group': n['cg'], 'atomname': n['tag']})
-                     for n in st_mol['nodes'])
-    m.add_edges_from(st_mol['edges'])
-    from vermouth.molecule import Interaction
-    for ty, lst in st_mol['inter'].items():
+def build_mol(mm, is_block=False):
+    """Real Molecule / Block for a model molecule (bulk constructors; the cache and the bookkeeping set directly)."""
+    from vermouth.molecule import Molecule, Block, Interaction
+    bk = mm.get('bk') or {'meta': '', 'cit': ('vermouth',), 'log': (), 'nrexcl': -1, 'ff': ''}
+    m = (Block if is_block else Molecule)()
+    m.add_nodes_from((n['key'], attr_kwargs(n)) for n in mm['nodes'])
+    m.add_edges_from(mm['edges'])
+    for ty, lst in mm['inter'].items():
         for it in lst:
-            m.interactions[ty].append(Interaction(atoms=tuple(it['atoms']), parameters=[it['tag']],
-                                                  meta=({'version': it['ver']} if it['ver'] else {})))
+            meta = {}
+            if it['ver']:
+                meta['version'] = it['ver']
+            if not it.get('edge', True):
+                meta['edge'] = False
+            m.interactions[ty].append(Interaction(atoms=tuple(it['atoms']), parameters=[it['tag']], meta=meta))
+    mx = mm.get('maxnode', -1)
+    m.max_node = None if mx == -1 else mx
+    m.meta = {'tag': bk['meta']} if bk['meta'] else {}
+    m.citations = set(bk['cit'])
+    for e in bk['log']:
+        m.log_entries[30][e['msg']] = [dict((p[0], p[1]) for p in em) for em in e['ems']]
+    m.nrexcl = None if bk['nrexcl'] == -1 else bk['nrexcl']
+    m._force_field = bk['ff'] or None
     return m
 
 
-def project(m, types=None):
-    nodes = tuple({'key': k, 'resid': d.get('resid'), 'cg': d.get('charge_group'), 'tag': d.get('atomname')}
-                  for k, d in m.nodes(data=True))
-    edges = frozenset((min(a, b), max(a, b)) for a, b in m.edges)
+def build_world(st, blocks=frozenset()):
+    from vermouth.system import System
+    cells = {i: build_mol(mm, i in blocks) for i, mm in enumerate(st['mols'], 1)}
+    system = System()
+    system.molecules = [cells[i] for i in st.get('sys', ())]
+    return {'cells': cells, 'system': system}
+
+
+def store(w, d, obj):
+    """`cell d = obj`: the variable that held the old object now holds the new one, in the system's list too."""
+    old = w['cells'][d]
+    w['cells'][d] = obj
+    w['system'].molecules = [obj if x is old else x for x in w['system'].molecules]
+
+
+def _edge(a, b):
+    return (a, b) if a <= b else (b, a)
+
+
+def project_book(m):
+    meta = m.meta.get('tag', '') if set(m.meta) <= {'tag'} else 'other:' + repr(sorted(m.meta.items(), key=repr))
+    log = []
+    for level, entries in m.log_entries.items():
+        for msg, ems in entries.items():
+            log.append({'msg': msg if level == 30 else 'L%s:%s' % (level, msg),
+                        'ems': tuple(tuple((str(k), v) for k, v in em.items()) for em in ems)})
+    ff = m._force_field
+    return {'meta': meta, 'cit': frozenset(str(c) for c in m.citations), 'log': tuple(log),
+            'nrexcl': -1 if m.nrexcl is None else m.nrexcl, 'ff': '' if ff is None else (ff if isinstance(ff, str) else getattr(ff, 'name', repr(ff)))}
+
+
+def project(m, types=T1, is_block=False, real=False):
+    """real: objects of the pipeline - the tag of an atom is "<chain>|<atom name>", the tag of an interaction all its
+    parameters; otherwise the toy objects of the models (tag = atom name = chain; one parameter)."""
+    if real:
+        nodes = tuple({'key': k, 'resid': d.get('resid'), 'cg': d.get('charge_group'), 'tag': '%s|%s' % (d.get('chain'), d.get('atomname'))}
+                      for k, d in m.nodes(data=True))
+    else:
+        nodes = tuple({'key': k, 'resid': d.get('resid'), 'cg': d.get('charge_group'), 'tag': d.get('atomname')}
+                      for k, d in m.nodes(data=True))
+    edges = frozenset(_edge(a, b) for a, b in m.edges)
     inter = {}
-    for ty in (types or TYPES):
-        inter[ty] = tuple({'atoms': tuple(i.atoms), 'ver': i.meta.get('version', 0), 'tag': i.parameters[0]}
-                          for i in m.interactions.get(ty, []))
-    extra = set(m.interactions) - set(types or TYPES)
+    for ty in types:
+        inter[ty] = tuple({'atoms': tuple(i.atoms), 'ver': i.meta.get('version', 0),
+                           'tag': ' '.join(str(x) for x in i.parameters) if real else i.parameters[0],
+                           'edge': bool(i.meta.get('edge', True))} for i in m.interactions.get(ty, []))
+    extra = set(m.interactions) - set(types)
     if any(m.interactions[t] for t in extra):
         inter['_extra'] = sorted(extra)
-    return {'nodes': nodes, 'edges': edges, 'inter': inter}
+    mx = m.max_node
+    return {'nodes': nodes, 'edges': edges, 'inter': inter,
+            'maxnode': -1 if (is_block or not isinstance(mx, int) or isinstance(mx, bool)) else mx, 'bk': project_book(m)}
 
 
-def same_mol(model, real):
-    return (tuple(dict(n) for n in model['nodes']) == real['nodes'] and frozenset(model['edges']) == real['edges']
-            and {k: tuple(dict(i) for i in v) for k, v in model['inter'].items()} == real['inter'])
+def project_world(w, types=T1, blocks=frozenset()):
+    cells = {c: project(m, types, c in blocks) for c, m in w['cells'].items()}
+    ids = {id(m): c for c, m in w['cells'].items()}
+    groups = collections.defaultdict(set)
+    for c, m in w['cells'].items():
+        groups[id(m.citations)].add(c)
+    return {'cells': cells, 'sys': tuple(ids.get(id(x), 0) for x in w['system'].molecules),
+            'parts': frozenset(frozenset(g) for g in groups.values())}
 
 
-def attr_kwargs(a):
-    return {'resid': a['resid'], 'charge_group': a['cg'], 'atomname': a['tag']}
+def _plain(v):
+    """parsed TLA+ value -> plain comparable Python (FrozenDict -> dict)."""
+    if isinstance(v, dict):
+        return {k: _plain(x) for k, x in v.items()}
+    if isinstance(v, tuple):
+        return tuple(_plain(x) for x in v)
+    if isinstance(v, frozenset):
+        return frozenset(_plain(x) if not isinstance(x, dict) else tlaval.FrozenDict(x) for x in v)
+    return v
 
 
-def apply_action(heap, name, args):
-    """Apply one model action to the real heap (dict id -> Molecule). Returns the error outcome name."""
+def compare(state, w, err, blocks=frozenset()):
+    """-> (difference in what the statement speaks of | None, [bookkeeping fields that differ])."""
+    if state['err'] != err:
+        return 'error outcome: model %r, implementation %r' % (state['err'], err), []
+    types = list(state['mols'][0]['inter'].keys())
+    real = project_world(w, types, blocks)
+    book = []
+    for idx, mm in enumerate(state['mols'], 1):
+        r = real['cells'][idx]
+        if (tuple(dict(n) for n in mm['nodes']) != r['nodes'] or frozenset(mm['edges']) != r['edges']
+                or {k: tuple(dict(i) for i in v) for k, v in mm['inter'].items()} != r['inter']):
+            return 'cell %d: model %r, implementation %r' % (idx, common.jsonable(strip(mm)), common.jsonable(strip(r))), []
+        if _plain(mm['bk']) != r['bk'] and 'bk' not in book:
+            book.append('bk')
+        if idx not in blocks and mm['maxnode'] != r['maxnode'] and 'cache' not in book:
+            book.append('cache')
+    if tuple(state.get('sys', ())) != real['sys']:
+        return 'molecule list of the system: model %r, implementation %r' % (tuple(state.get('sys', ())), real['sys']), []
+    if 'parts' in state and frozenset(frozenset(p) for p in state['parts']) != real['parts']:
+        book.append('parts')
+    return None, book
+
+
+def strip(mm):
+    return {k: v for k, v in mm.items() if k in ('nodes', 'edges', 'inter')}
+
+
+def apply_action(w, name, args):
+    """Apply one model action to the real world. Returns the error outcome name."""
     import networkx as nx
+    cells = w['cells']
     try:
         if name == 'AddNode':
             m, k, ai = args
-            heap[m].add_node(k, **attr_kwargs(ATTRS[ai - 1]))
+            cells[m].add_node(k, **attr_kwargs(ATTRS[ai - 1]))
         elif name == 'AddNodesFrom':
             m, ks, ai = args
-            heap[m].add_nodes_from(sorted(ks), **attr_kwargs(ATTRS[ai - 1]))
+            cells[m].add_nodes_from(sorted(ks), **attr_kwargs(ATTRS[ai - 1]))
         elif name == 'SetResid':
             m, k, r = args
-            if k not in heap[m]:
+            if k not in cells[m]:
                 return 'disabled'
-            heap[m].nodes[k]['resid'] = r
+            cells[m].nodes[k]['resid'] = r
         elif name == 'RemoveNode':
             m, k = args
-            heap[m].remove_node(k)
+            cells[m].remove_node(k)
         elif name == 'RemoveNodesFrom':
             m, ks, one_shot = args
             ks = sorted(ks)
-            heap[m].remove_nodes_from((k for k in ks) if one_shot else ks)
+            cells[m].remove_nodes_from((k for k in ks) if one_shot else ks)
         elif name == 'AddEdge':
             m, a, b = args
-            heap[m].add_edge(a, b)
+            cells[m].add_edge(a, b)
         elif name == 'AddInter':
             m, ty, at, v, t = args
-            heap[m].add_interaction(ty, tuple(at), [t], meta=({'version': v} if v else {}))
+            cells[m].add_interaction(ty, tuple(at), [t], meta=({'version': v} if v else {}))
+        elif name == 'AddInterNoEdge':
+            m, ty, at = args
+            cells[m].add_interaction(ty, tuple(at), ['n'], meta={'edge': False})
         elif name == 'AddOrReplace':
             m, ty, at, v, t = args
-            heap[m].add_or_replace_interaction(ty, tuple(at), [t], meta=({'version': v} if v else {}))
+            cells[m].add_or_replace_interaction(ty, tuple(at), [t], meta=({'version': v} if v else {}))
+        elif name == 'AddOrReplaceCite':
+            m, ty, at, c = args
+            cells[m].add_or_replace_interaction(ty, tuple(at), ['c'], meta={}, citations={c})
         elif name == 'RemoveInter':
             m, ty, at, v = args
-            heap[m].remove_interaction(ty, tuple(at), version=v)
+            cells[m].remove_interaction(ty, tuple(at), version=v)
+        elif name == 'MakeEdges':
+            cells[args[0]].make_edges_from_interactions()
         elif name == 'Copy':
             s, d = args
-            heap[d] = heap[s].copy()
+            store(w, d, cells[s].copy())
         elif name == 'Subgraph':
             s, ks, d = args
-            heap[d] = heap[s].subgraph(sorted(ks))
+            store(w, d, cells[s].subgraph(sorted(ks)))
+        elif name == 'GraphCopy':
+            s, d = args
+            store(w, d, nx.Graph.copy(cells[s]))
         elif name == 'Merge':
             m, n = args
-            heap[m].merge_molecule(heap[n])
+            cells[m].merge_molecule(cells[n])
+        elif name == 'ToMol':
+            b, d, o = args
+            store(w, d, cells[b].to_molecule(atom_offset=o[0], offset_resid=o[1], offset_charge_group=o[2]))
+        elif name == 'MergeAll':
+            from vermouth.processors.merge_all_molecules import MergeAllMolecules
+            MergeAllMolecules().run_system(w['system'])
+        elif name in ('MergeChains', 'MergeChainsAll'):
+            from vermouth.processors.merge_chains import MergeChains
+            known = {id(x) for x in cells.values()}
+            if name == 'MergeChains':
+                cs, d = args
+                MergeChains(chains=sorted(cs)).run_system(w['system'])
+            else:
+                d, = args
+                MergeChains(all_chains=True).run_system(w['system'])
+            new = [x for x in w['system'].molecules if id(x) not in known]
+            if len(new) > 1:
+                return 'Exception:two new molecules'
+            if new:
+                cells[d] = new[0]
         else:
             raise ValueError('unknown action ' + name)
     except KeyError:
         return 'KeyError'
     except nx.NetworkXError:
         return 'NetworkXError'
+    except ValueError:
+        return 'ValueError'
+    except TypeError:
+        return 'TypeError'
     except Exception as exc:     # any other exception is an outcome the model never has
         return 'Exception:%s' % type(exc).__name__
     return 'none'
@@ -148,21 +420,6 @@ def parse_label(label):
     if not m:
         return label, ()
     return m.group(1), tlaval.parse('<<' + m.group(2) + '>>')
-
-
-def compare(state, heap, err):
-    """-> None or description of the first difference between TLC's state and the real heap."""
-    if state['err'] != err:
-        return 'error outcome: model %r, implementation %r' % (state['err'], err)
-    for idx, mm in enumerate(state['mols'], 1):
-        real = project(heap[idx], list(mm['inter'].keys()))
-        if not same_mol(mm, real):
-            return 'cell %d: model %r, implementation %r' % (idx, common.jsonable(strip(mm)), common.jsonable(real))
-    return None
-
-
-def strip(mm):
-    return {k: v for k, v in mm.items() if k != 'maxnode'}
 
 
 # ---------------------------------------------------------------- dot graph replay
@@ -188,9 +445,16 @@ def load_dot(path):
     return nodes, edges, len(seen)
 
 
-def _replay_tree(args):
-    """Replay all transitions reachable from one initial state (DFS over the BFS tree)."""
-    root, nodes_txt, edges, parent_edge = args
+_SHARED = {}
+SLICES = 4
+
+
+def _replay_slice(job):
+    """Replay the transitions reachable from one initial state through its outgoing edges number i, i+SLICES, ...
+    (DFS over the BFS tree)."""
+    cfg, root, part = job
+    nodes_txt, edges, parent_edge = _SHARED[cfg]
+    blocks = BLOCKS[cfg]
     parsed = {}
 
     def state(fp):
@@ -199,33 +463,48 @@ def _replay_tree(args):
         return parsed[fp]
 
     st0 = state(root)
-    heap0 = {i: build_from_state(mm) for i, mm in enumerate(st0['mols'], 1)}
+    w0 = build_world(st0, blocks)
     bad, count, acts = [], 0, collections.Counter()
-    stack = [(root, heap0, [])]
+    obs_ok, differs, obs_sample = collections.Counter(), collections.Counter(), {}
+    stack = [(root, w0, [], True)]
     while stack:
-        fp, heap, path = stack.pop()
-        for tgt, label in edges.get(fp, ()):
+        fp, w, path, is_root = stack.pop()
+        for ei, (tgt, label) in enumerate(edges.get(fp, ())):
+            if is_root and ei % SLICES != part:
+                continue
             if tgt not in nodes_txt:
                 continue
             name, a = parse_label(label)
-            h2 = copy.deepcopy(heap)
-            err = apply_action(h2, name, a)
+            w2 = copy.deepcopy(w)
+            err = apply_action(w2, name, a)
             count += 1
             acts[name] += 1
-            diff = compare(state(tgt), h2, err)
+            tst = state(tgt)
+            diff, book = compare(tst, w2, err, blocks)
             if diff:
-                if len(bad) < 5:
-                    bad.append({'init': common.jsonable([strip(m) for m in st0['mols']]), 'path': path + [label], 'diff': diff})
+                if len(bad) < 3:
+                    bad.append({'config': cfg, 'init': common.jsonable({'mols': [strip_all(m) for m in st0['mols']], 'sys': st0['sys']}),
+                                'path': path + [label], 'diff': diff})
                 continue
+            for f in book:
+                differs['%s:differs:%s' % (name, f)] += 1
+                obs_sample.setdefault('differs:' + f, {'config': cfg, 'path': path + [label]})
+            if not book:
+                for c in tst['obs']:
+                    obs_ok['%s:%s' % (name, c)] += 1
+                    obs_sample.setdefault(c, {'config': cfg, 'path': path + [label]})
             if parent_edge.get(tgt) == (fp, label):
-                stack.append((tgt, h2, path + [label]))
-    return count, bad, dict(acts)
+                stack.append((tgt, w2, path + [label], False))
+    return count, bad, dict(acts), dict(obs_ok), dict(differs), obs_sample
 
 
-def replay_graph(dot_path, ev, vd):
+def strip_all(mm):
+    return {k: v for k, v in mm.items()}
+
+
+def prepare_graph(cfg, dot_path):
     nodes_txt, edges, nedges = load_dot(dot_path)
     roots = [fp for fp, body in nodes_txt.items() if re.search(r'steps = 0\b', body)]
-    # BFS tree
     parent_edge, owner = {}, {}
     frontier = list(roots)
     for r in roots:
@@ -239,416 +518,749 @@ def replay_graph(dot_path, ev, vd):
                     parent_edge[tgt] = (fp, label)
                     nxt.append(tgt)
         frontier = nxt
-    jobs = []
-    for r in roots:
-        mine = {fp for fp, o in owner.items() if o == r}
-        jobs.append((r, {fp: nodes_txt[fp] for fp in nodes_txt}, edges, parent_edge))
-    # each job needs all node texts (targets may belong to other trees); share through fork
-    global _SHARED
-    _SHARED = (nodes_txt, edges, parent_edge)
-    with mp.Pool(min(tlc.NCPU, len(roots))) as pool:
-        results = pool.map(_replay_tree_shared, roots)
-    total, acts = 0, collections.Counter()
-    for count, bad, a in results:
-        total += count
-        acts.update(a)
-        for b in bad:
-            vd.violation('replay-mismatch', b, b['diff'])
-    # all transitions out of tree nodes are covered; transitions count check
-    ev.traces += total
-    ev.evaluations += total
-    ev.extra.setdefault('replayed_transitions_by_action', {}).update(dict(acts))
-    return total, nedges, acts
+    _SHARED[cfg] = (nodes_txt, edges, parent_edge)
+    return [(cfg, r, i) for r in roots for i in range(SLICES)], nedges
 
 
-_SHARED = None
+def _mc_job(job):
+    """One exhaustive TLC run (in a pool worker; the dot file stays in the scratch directory the parent removes)."""
+    name, consts, work, nworkers = job
+    dot = os.path.join(work, name + '.dot')
+    res = tlc.run('MoleculeEdit', CFG_TEXT[name], consts=consts, workdir=os.path.join(work, 'mc_' + name), workers=nworkers, coverage=True,
+                  extra=['-dump', 'dot,actionlabels', dot], timeout=3000)
+    res.stdout = res.stdout[-4000:]
+    return 'mc', name, res, dot
 
 
-def _replay_tree_shared(root):
-    nodes_txt, edges, parent_edge = _SHARED
-    return _replay_tree((root, nodes_txt, edges, parent_edge))
+def _sim_job(job):
+    name, consts, work, seed, num, nworkers = job
+    res = tlc.run('MoleculeEdit', CFG_TEXT[name], consts=consts, workdir=os.path.join(work, 'sim_' + name), workers=nworkers, seed=seed,
+                  simulate={'num': max(1, num // nworkers), 'file': True}, depth=int(consts['MaxDepth']) + 1, timeout=3000)
+    res.stdout = res.stdout[-3000:]
+    return 'sim', name, res, None
+
+
+def _tlc_job(job):
+    return _mc_job(job[1:]) if job[0] == 'mc' else _sim_job(job[1:])
+
+
+def note_book(ev, obs_ok, differs, samples):
+    bk = ev.extra.setdefault('bookkeeping', {'clauses': CLAUSES, 'not_respected_confirmed_on_real_objects': {},
+                                             'differs_from_model_as_found': {}, 'samples': {}})
+    for k, v in obs_ok.items():
+        bk['not_respected_confirmed_on_real_objects'][k] = bk['not_respected_confirmed_on_real_objects'].get(k, 0) + v
+    for k, v in differs.items():
+        bk['differs_from_model_as_found'][k] = bk['differs_from_model_as_found'].get(k, 0) + v
+    for k, v in samples.items():
+        bk['samples'].setdefault(k, common.jsonable(v))
+
+
+def tlc_phase(tier, seed, book, ev, with_sim=True):
+    """All exhaustive and simulation runs of TLC side by side.  -> (replay jobs, expectation for absorb_replay)"""
+    cfgs = configs(tier, book)
+    work = tlc.scratch('c12_')
+    for name in cfgs:
+        os.makedirs(os.path.join(work, 'mc_' + name))
+        os.makedirs(os.path.join(work, 'sim_' + name))
+    jobs = [('mc', n, c, work, 6 if n != 'block' else 3) for n, c in cfgs.items()]
+    if with_sim:
+        nsim = {'edit': 160, 'system': 80, 'block': 60} if tier == 'quick' else {'edit': 4000, 'system': 2000, 'block': 1500}
+        jobs += [('sim', n, c, work, seed + 1, nsim[n], 3) for n, c in sim_configs(book).items()]
+    with mp.Pool(len(jobs)) as pool:
+        results = pool.map(_tlc_job, jobs, chunksize=1)
+    rjobs, expect, first = [], {}, None
+    for kind, name, res, dot in results:
+        if kind == 'mc':
+            if res.violated:
+                raise tlc.MachineryError('MoleculeEdit/%s (design as demanded by the property) violates %s: the specification is wrong\n%s'
+                                         % (name, res.violated, res.stdout[-1500:]))
+            ev.add_tlc('MC MoleculeEdit/%s depth %s' % (name, cfgs[name]['MaxDepth']), res)
+            never = [a for a in ACTS[name] if res.coverage.get(a, (0, 0))[1] == 0]
+            if never:
+                raise tlc.MachineryError('vacuous model %s: TLC coverage shows actions never taken: %s' % (name, never))
+            j, nedges = prepare_graph(name, dot)
+            os.remove(dot)
+            rjobs += [('replay',) + x for x in j]
+            expect[name] = nedges
+        else:
+            if res.violated:
+                raise tlc.MachineryError('MoleculeEdit/%s simulation violates %s' % (name, res.violated))
+            files = tlc.sim_files(res)
+            first = first or (files[0] if files else None)
+            rjobs += [('behaviours', name, ch) for ch in common.chunks(files, 6)]
+    ev.exhaustive = True
+    return rjobs, {'expect': expect, 'cfgs': list(cfgs), 'first': first, 'work': work, 'with_sim': with_sim}
+
+
+def absorb_replay(jobs, outs, info, ev, vd):
+    total = collections.Counter()
+    acts = collections.defaultdict(collections.Counter)
+    nb = ns = 0
+    sim_acts = collections.Counter()
+    for job, out in zip(jobs, outs):
+        if job[0] == 'replay':
+            cfg = job[1]
+            count, bad, a, obs_ok, differs, samples = out
+            total[cfg] += count
+            acts[cfg].update(a)
+            for b in bad:
+                vd.violation('replay-mismatch', b, b['diff'])
+            note_book(ev, obs_ok, differs, samples)
+        elif job[0] == 'behaviours':
+            n, steps, bad, hashes, a, obs_ok, differs, samples = out
+            nb += n
+            ns += steps
+            for b in bad:
+                vd.violation('simulated-behaviour-mismatch', b, b['diff'])
+            ev.nontrivial.update(hashes)
+            sim_acts.update(a)
+            note_book(ev, obs_ok, differs, samples)
+    for cfg in info['cfgs']:
+        missing = set(ACTS[cfg]) - set(acts[cfg])
+        if missing:
+            raise tlc.MachineryError('vacuous model %s: actions never replayed: %s' % (cfg, sorted(missing)))
+        if total[cfg] != info['expect'][cfg]:
+            raise tlc.MachineryError('%s: replayed %d of %d transitions' % (cfg, total[cfg], info['expect'][cfg]))
+        ev.extra.setdefault('replayed_transitions_by_action', {})[cfg] = dict(acts[cfg])
+    n = sum(total.values())
+    ev.traces += n + nb
+    ev.evaluations += n + nb
+    ev.transitions += ns
+    if info['with_sim']:
+        ev.tlc_runs.append({'run': 'SIM MoleculeEdit edit / system / block, depth 10-12', 'behaviours': nb, 'steps': ns, 'by_action': dict(sim_acts)})
+        need = set(EDIT_ACTS + SYS_ACTS + BLK_ACTS)
+        if need - set(sim_acts):
+            raise tlc.MachineryError('simulation never took: %s' % sorted(need - set(sim_acts)))
+        if info['first']:
+            beh = tlaval.parse_simulate_file(info['first'])
+            ev.sample({'kind': 'simulated behaviour replayed on real objects', 'calls': ['%s(%s)' % (a, b) for a, b, _ in beh[1:]]})
+    _SHARED.clear()
+    shutil.rmtree(info['work'], ignore_errors=True)
+
+
+def _dispatch(job):
+    kind = job[0]
+    if kind == 'replay':
+        return _replay_slice(job[1:])
+    if kind == 'behaviours':
+        return _replay_behaviours(job[1:])
+    if kind == 'random':
+        return _random_worker(job[1:])
+    if kind == 'real':
+        from . import c12_more
+        return c12_more._real_worker(job[1:])
+    raise ValueError(kind)
+
+
+def model_check(tier, book, ev, vd):
+    """The exhaustive part alone (used by the selftest)."""
+    jobs, info = tlc_phase(tier, 0, book, ev, with_sim=False)
+    with mp.Pool(tlc.NCPU) as pool:
+        outs = pool.map(_dispatch, jobs, chunksize=1)
+    absorb_replay(jobs, outs, info, ev, vd)
 
 
 # ---------------------------------------------------------------- simulation replay
-def _replay_behaviours(files):
+def _replay_behaviours(job):
+    cfg, files = job
+    blocks = BLOCKS[cfg]
     bad, steps, n = [], 0, 0
     seen = set()
+    acts = collections.Counter()
+    obs_ok, differs, samples = collections.Counter(), collections.Counter(), {}
     for f in files:
         beh = tlaval.parse_simulate_file(f)
         if not beh:
             continue
         st0 = beh[0][2]
-        heap = {i: build_from_state(mm) for i, mm in enumerate(st0['mols'], 1)}
+        w = build_world(st0, blocks)
         path = []
         n += 1
         for act, a, st in beh[1:]:
             args = tlaval.parse('<<' + (a or '') + '>>')
-            err = apply_action(heap, act, args)
-            path.append('%s(%s)' % (act, a))
+            err = apply_action(w, act, args)
+            path.append('%s(%s)' % (act, a) if a else act)
             steps += 1
-            diff = compare(st, heap, err)
+            acts[act] += 1
+            diff, book = compare(st, w, err, blocks)
             if diff:
-                bad.append({'init': common.jsonable([strip(m) for m in st0['mols']]), 'path': path, 'diff': diff})
+                bad.append({'config': cfg, 'init': common.jsonable({'mols': list(st0['mols']), 'sys': st0['sys']}), 'path': path, 'diff': diff})
                 break
+            for fld in book:
+                differs['%s:differs:%s' % (act, fld)] += 1
+                samples.setdefault('differs:' + fld, {'config': cfg, 'path': list(path)})
+            if book:
+                break          # the real bookkeeping left the model: later steps would repeat the same difference
+            for c in st['obs']:
+                obs_ok['%s:%s' % (act, c)] += 1
         seen.add(tuple(path))
-    return n, steps, bad, len([p for p in seen if len(p) >= 2])
+    return n, steps, bad, [hashlib.sha1(repr(p).encode()).hexdigest()[:16] for p in seen if len(p) >= 2], dict(acts), dict(obs_ok), dict(differs), samples
 
 
-# ---------------------------------------------------------------- random traces (code -> spec)
-TR_TYPES = ['bonds', 'angles']
+# ---------------------------------------------------------------- recorded histories (code -> spec)
+TR_TYPES = ['bonds', 'angles', 'impropers']
+TR_EDGE = ['bonds', 'angles']
+TR_CELLS = [1, 2, 3, 4]
+TR_BLOCKS = [4]
+BNAMES = ['a', 'b', 'c', 'd', 'e', 'f']
 
 
-def random_history(rng, nops):
-    """Run a random editing history on real molecules; return the event list."""
-    heap = {1: new_molecule(), 2: new_molecule(), 3: new_molecule()}
-    keys = list(range(0, 14)) + [20, 31]
-    events = []
-    tagc = [0]
+def mol_json(m, types, is_block, real=False):
+    p = project(m, types, is_block, real)
+    bk = p['bk']
+    return {'nodes': [dict(n) for n in p['nodes']], 'edges': sorted([list(e) for e in p['edges']]),
+            'inter': {t: [{'atoms': list(i['atoms']), 'ver': i['ver'], 'tag': i['tag'], 'edge': i['edge']} for i in p['inter'][t]]
+                      for t in types},
+            'extra': '_extra' in p['inter'], 'maxnode': p['maxnode'],
+            'bk': {'meta': bk['meta'], 'cit': sorted(bk['cit']), 'nrexcl': bk['nrexcl'], 'ff': bk['ff'],
+                   'log': [{'msg': e['msg'], 'ems': [[[nm, k] for nm, k in em] for em in e['ems']]} for e in bk['log']]}}
 
-    def post(ids):
-        return [[i, proj_json(heap[i])] for i in ids]
 
-    for _ in range(nops):
-        m = rng.choice([1, 1, 2, 3])
-        present = list(heap[m].nodes)
-        op = rng.choice(['AddNode', 'AddNode', 'AddNodesFrom', 'SetResid', 'RemoveNode', 'RemoveNodesFrom', 'AddEdge',
-                         'AddInter', 'AddInter', 'AddOrReplace', 'RemoveInter', 'Copy', 'Subgraph', 'Merge', 'Merge',
-                         'MergeAll', 'MergeChains', 'ToMolecule'])
-        a = {'resid': rng.randint(1, 9), 'cg': rng.randint(1, 9), 'tag': rng.choice('pqr')}
-        ev = {'ev': op, 'm': m}
-        touched = [m]
-        err = 'none'
+def world_json(w, types, blocks, real=False):
+    ids = {id(m): c for c, m in w['cells'].items()}
+    groups = collections.defaultdict(list)
+    for c, m in sorted(w['cells'].items()):
+        groups[id(m.citations)].append(c)
+    return {'post': [[c, mol_json(m, types, c in blocks, real)] for c, m in sorted(w['cells'].items())],
+            'sys': [ids.get(id(x), 0) for x in w['system'].molecules],
+            'parts': sorted(groups.values())}
+
+
+class Recorder:
+    """Runs calls on a real world and logs one event per call: arguments, error outcome, projection of the world after."""
+    def __init__(self, w, types, blocks, real=False):
+        self.w, self.types, self.blocks, self.real = w, list(types), set(blocks), real
+        self.events = []
+
+    def load(self):
+        ev = {'ev': 'Load', 'm': 0, 'err': 'none'}
+        ev.update(world_json(self.w, self.types, self.blocks, self.real))
+        self.events.append(ev)
+
+    def call(self, ev, fn):
         import networkx as nx
+        err = 'none'
         try:
-            if op == 'AddNode':
-                k = rng.choice(keys) if rng.random() < 0.7 or not present else max(present) + 1
-                ev.update(k=k, a=a)
-                heap[m].add_node(k, **attr_kwargs(a))
-            elif op == 'AddNodesFrom':
-                base = (max(present) + 1) if present and rng.random() < 0.6 else rng.choice(keys)
-                ks = sorted({base, base + rng.randint(0, 2)})
-                ev.update(ks=ks, a=a)
-                heap[m].add_nodes_from(ks, **attr_kwargs(a))
-            elif op == 'SetResid':
-                if not present:
-                    continue
-                k = rng.choice(present)
-                r = rng.randint(1, 9)
-                ev.update(k=k, r=r)
-                heap[m].nodes[k]['resid'] = r
-            elif op == 'RemoveNode':
-                k = rng.choice(present) if present and rng.random() < 0.9 else rng.choice(keys)
-                if present and rng.random() < 0.3:
-                    k = max(present)
-                ev.update(k=k)
-                heap[m].remove_node(k)
-            elif op == 'RemoveNodesFrom':
-                ks = sorted(set(rng.sample(present, min(len(present), rng.randint(1, 2))) + [rng.choice(keys)]))
-                one = rng.random() < 0.5
-                ev.update(ks=ks, oneShot=one)
-                heap[m].remove_nodes_from((k for k in ks) if one else ks)
-            elif op == 'AddEdge':
-                if len(present) < 2:
-                    continue
-                x, y = rng.sample(present, 2)
-                ev.update(a=min(x, y), b=max(x, y))
-                heap[m].add_edge(x, y)
-            elif op in ('AddInter', 'AddOrReplace', 'RemoveInter'):
-                ty = rng.choice(TR_TYPES)
-                n = 2 if ty == 'bonds' else 3
-                pool = present if present and rng.random() < 0.9 else keys
-                if op != 'AddInter' and heap[m].interactions.get(ty) and rng.random() < 0.7:
-                    at = list(rng.choice(heap[m].interactions[ty]).atoms)
-                else:
-                    at = [rng.choice(pool) for _ in range(n)]
-                v = rng.choice([0, 0, 1])
-                tagc[0] += 1
-                t = 'x%d' % (tagc[0] % 5)
-                ev.update(ty=ty, at=at, v=v, t=t)
-                if op == 'AddInter':
-                    heap[m].add_interaction(ty, tuple(at), [t], meta=({'version': v} if v else {}))
-                elif op == 'AddOrReplace':
-                    heap[m].add_or_replace_interaction(ty, tuple(at), [t], meta=({'version': v} if v else {}))
-                else:
-                    heap[m].remove_interaction(ty, tuple(at), version=v)
-            elif op == 'Copy':
-                d = rng.choice([i for i in heap if i != m])
-                ev.update(m=d, src=m)
-                touched = [d, m]
-                heap[d] = heap[m].copy()
-            elif op == 'Subgraph':
-                d = rng.choice([i for i in heap if i != m])
-                ks = rng.sample(present, rng.randint(0, len(present))) if present else []
-                if ks and rng.random() < 0.4:          # the same key listed more than once
-                    for _ in range(rng.randint(1, 2)):
-                        ks.insert(rng.randrange(len(ks) + 1), rng.choice(ks))
-                ev.update(m=d, src=m, ks=ks)
-                touched = [d, m]
-                heap[d] = heap[m].subgraph(ks)
-            elif op == 'MergeAll':
-                # vermouth.processors.MergeAllMolecules on a system holding the three molecules in a random order
-                from vermouth.system import System
-                from vermouth.processors.merge_all_molecules import MergeAllMolecules
-                order = rng.sample(sorted(heap), 3)
-                if sum(len(heap[i]) for i in order) > 16:
-                    continue
-                system = System()
-                system.molecules = [heap[i] for i in order]
-                ev.update(m=order[0], ks=order)
-                touched = order
-                MergeAllMolecules().run_system(system)
-                assert system.molecules == [heap[order[0]]] or len(system.molecules) == 1
-            elif op == 'MergeChains':
-                # vermouth.processors.MergeChains: the molecules whose chains are all selected are merged into a NEW molecule
-                from vermouth.system import System
-                from vermouth.processors.merge_chains import MergeChains
-                order = rng.sample(sorted(heap), 3)
-                if sum(len(heap[i]) for i in order) > 16:
-                    continue
-                chains = rng.sample(['p', 'q', 'r'], rng.randint(1, 3))
-                for i in order:       # the chain of an atom is its tag in this driver
-                    for _, d in heap[i].nodes(data=True):
-                        d['chain'] = d.get('atomname')
-                system = System()
-                system.molecules = [heap[i] for i in order]
-                before = {id(heap[i]): i for i in order}
-                MergeChains(chains=chains).run_system(system)
-                new = [x for x in system.molecules if id(x) not in before]
-                d = order[-1] if not new else None
-                ev.update(m=m, ks=order, at=chains)
-                if new:
-                    # the merged molecule replaces the heap cell of the first merged molecule only in our bookkeeping: the
-                    # originals are untouched objects, so store the new object in a cell and let TLC compare all cells
-                    tgt = rng.choice(sorted(heap))
-                    heap[tgt] = new[0]
-                    ev['m'] = tgt
-                else:
-                    continue
-            elif op == 'ToMolecule':
-                # Block.to_molecule of a block holding the content of cell m (string keys in node order)
-                from vermouth.molecule import Block, Interaction
-                src = m
-                if not present:
-                    continue
-                blk = Block()
-                names = {k: 'n%d' % j for j, k in enumerate(heap[src].nodes)}
-                for k, dd in heap[src].nodes(data=True):
-                    blk.add_node(names[k], atomname=dd.get('atomname'), resid=dd.get('resid'), charge_group=dd.get('charge_group'))
-                blk.add_edges_from((names[x], names[y]) for x, y in heap[src].edges)
-                for ty, lst in heap[src].interactions.items():
-                    for it in lst:
-                        blk.interactions[ty].append(Interaction(atoms=tuple(names[x] for x in it.atoms), parameters=list(it.parameters), meta=dict(it.meta)))
-                off, dres, dcg = rng.choice([0, 1, 7]), rng.choice([0, 2]), rng.choice([0, 3])
-                dst = rng.choice([i for i in heap if i != src])
-                ev.update(m=dst, src=src, k=off, r=dres, v=dcg)
-                touched = [dst, src]
-                newmol = blk.to_molecule(atom_offset=off, offset_resid=dres, offset_charge_group=dcg,
-                                         default_attributes={})
-                heap[dst] = newmol
-            elif op == 'Merge':
-                n = rng.choice([i for i in heap if i != m])
-                if len(heap[m]) + len(heap[n]) > 16:
-                    continue
-                ev.update(n=n)
-                touched = [m, n]
-                heap[m].merge_molecule(heap[n])
+            fn()
         except KeyError:
             err = 'KeyError'
         except nx.NetworkXError:
             err = 'NetworkXError'
-        except Exception as exc:
+        except ValueError:
+            err = 'ValueError'
+        except TypeError:
+            err = 'TypeError'
+        except Exception as exc:      # noqa
             err = 'Exception:%s' % type(exc).__name__
+        ev = dict(ev)
         ev['err'] = err
-        ev['post'] = post(sorted(set(heap)))
-        events.append(ev)
-    return events
+        ev.update(world_json(self.w, self.types, self.blocks, self.real))
+        self.events.append(ev)
+        return err
 
 
-def proj_json(m):
-    p = project(m, TR_TYPES)
-    return {'nodes': [dict(n) for n in p['nodes']], 'edges': sorted([list(e) for e in p['edges']]),
-            'inter': {t: [{'atoms': list(i['atoms']), 'ver': i['ver'], 'tag': i['tag']} for i in p['inter'][t]]
-                      for t in TR_TYPES}, 'extra': '_extra' in p['inter']}
+def new_world():
+    from vermouth.molecule import Molecule, Block
+    from vermouth.system import System
+    return {'cells': {1: Molecule(), 2: Molecule(), 3: Molecule(), 4: Block()}, 'system': System()}
 
 
-def _hist_chunk(args):
-    n, nops, seed = args
-    rng = random.Random(seed)
-    return [random_history(rng, nops) for _ in range(n)]
+def random_history(rng, nops):
+    """Run a random editing history on real objects; return the event list."""
+    from vermouth.processors.merge_all_molecules import MergeAllMolecules
+    from vermouth.processors.merge_chains import MergeChains
+    import networkx as nx
+    w = new_world()
+    cells = w['cells']
+    rec = Recorder(w, TR_TYPES, TR_BLOCKS)
+    keys = list(range(0, 14)) + [20, 31]
+    tagc = [0]
+    ops = (['AddNode'] * 3 + ['AddNodesFrom', 'SetResid', 'RemoveNode', 'RemoveNodesFrom', 'AddEdge'] + ['AddInter'] * 3
+           + ['AddOrReplace', 'RemoveInter', 'MakeEdges', 'Copy', 'Subgraph', 'GraphCopy'] + ['Merge'] * 3
+           + ['SetSys', 'MergeAll', 'MergeChains', 'MergeChainsAll', 'ToMol', 'BlockEdit', 'BlockEdit', 'MergeBlock', 'AddLog'])
+    for _ in range(nops):
+        m = rng.choice([1, 1, 2, 3])
+        present = list(cells[m].nodes)
+        op = rng.choice(ops)
+        a = {'resid': rng.randint(1, 9), 'cg': rng.randint(1, 9), 'tag': rng.choice('pqr')}
+        ev = {'ev': op, 'm': m}
+        if op == 'AddNode':
+            k = rng.choice(keys) if rng.random() < 0.7 or not present else max(present) + 1
+            ev.update(k=k, a=a)
+            rec.call(ev, lambda: cells[m].add_node(k, **attr_kwargs(a)))
+        elif op == 'AddNodesFrom':
+            base = (max(present) + 1) if present and rng.random() < 0.6 else rng.choice(keys)
+            ks = sorted({base, base + rng.randint(0, 2)})
+            ev.update(ks=ks, a=a)
+            rec.call(ev, lambda: cells[m].add_nodes_from(ks, **attr_kwargs(a)))
+        elif op == 'SetResid':
+            if not present:
+                continue
+            k, r = rng.choice(present), rng.randint(1, 9)
+            ev.update(k=k, r=r)
+            rec.call(ev, lambda: cells[m].nodes[k].__setitem__('resid', r))
+        elif op == 'RemoveNode':
+            k = rng.choice(present) if present and rng.random() < 0.9 else rng.choice(keys)
+            if present and rng.random() < 0.3:
+                k = max(present)
+            ev.update(k=k)
+            rec.call(ev, lambda: cells[m].remove_node(k))
+        elif op == 'RemoveNodesFrom':
+            ks = sorted(set(rng.sample(present, min(len(present), rng.randint(1, 2))) + [rng.choice(keys)]))
+            one = rng.random() < 0.5
+            ev.update(ks=ks, oneShot=one)
+            rec.call(ev, lambda: cells[m].remove_nodes_from((k for k in ks) if one else ks))
+        elif op == 'AddEdge':
+            if len(present) < 2:
+                continue
+            x, y = rng.sample(present, 2)
+            ev.update(k=min(x, y), b=max(x, y))
+            rec.call(ev, lambda: cells[m].add_edge(x, y))
+        elif op in ('AddInter', 'AddOrReplace', 'RemoveInter'):
+            ty = rng.choice(TR_TYPES)
+            n = 2 if ty == 'bonds' else 3
+            pool = present if present and rng.random() < 0.9 else keys
+            if op != 'AddInter' and cells[m].interactions.get(ty) and rng.random() < 0.7:
+                at = list(rng.choice(cells[m].interactions[ty]).atoms)
+            else:
+                at = [rng.choice(pool) for _ in range(n)]
+            v = rng.choice([0, 0, 1])
+            tagc[0] += 1
+            t = 'x%d' % (tagc[0] % 5)
+            meta = {'version': v} if v else {}
+            ev.update(ty=ty, at=at, v=v, t=t)
+            if op == 'AddInter':
+                edge = rng.random() < 0.7
+                if not edge:
+                    meta['edge'] = False
+                ev.update(edge=edge)
+                rec.call(ev, lambda: cells[m].add_interaction(ty, tuple(at), [t], meta=meta))
+            elif op == 'AddOrReplace':
+                cs = rng.choice([[], [], ['c%d' % rng.randint(1, 3)]])
+                ev.update(cs=cs)
+                rec.call(ev, lambda: cells[m].add_or_replace_interaction(ty, tuple(at), [t], meta=meta, citations=set(cs)))
+            else:
+                rec.call(ev, lambda: cells[m].remove_interaction(ty, tuple(at), version=v))
+        elif op == 'MakeEdges':
+            rec.call(ev, lambda: cells[m].make_edges_from_interactions())
+        elif op in ('Copy', 'GraphCopy'):
+            d = rng.choice([i for i in (1, 2, 3) if i != m])
+            ev.update(m=d, src=m)
+            rec.call(ev, lambda: store(w, d, cells[m].copy() if op == 'Copy' else nx.Graph.copy(cells[m])))
+        elif op == 'Subgraph':
+            d = rng.choice([i for i in (1, 2, 3) if i != m])
+            ks = rng.sample(present, rng.randint(0, len(present))) if present else []
+            if ks and rng.random() < 0.4:          # the same key listed more than once
+                for _ in range(rng.randint(1, 2)):
+                    ks.insert(rng.randrange(len(ks) + 1), rng.choice(ks))
+            ev.update(m=d, src=m, ks=ks)
+            rec.call(ev, lambda: store(w, d, cells[m].subgraph(ks)))
+        elif op == 'Merge':
+            n = rng.choice([i for i in (1, 2, 3) if i != m])
+            if len(cells[m]) + len(cells[n]) > 16:
+                continue
+            ev.update(n=n)
+            rec.call(ev, lambda: cells[m].merge_molecule(cells[n]))
+        elif op == 'SetSys':
+            order = rng.sample([1, 2, 3], rng.randint(1, 3))
+            ev.update(m=0, ks=order)
+            rec.call(ev, lambda: setattr(w['system'], 'molecules', [cells[i] for i in order]))
+        elif op == 'MergeAll':
+            if not w['system'].molecules or sum(len(x) for x in w['system'].molecules) > 18:
+                continue
+            ev.update(m=0)
+            rec.call(ev, lambda: MergeAllMolecules().run_system(w['system']))
+        elif op in ('MergeChains', 'MergeChainsAll'):
+            insys = {id(x) for x in w['system'].molecules}
+            free = [c for c in (1, 2, 3) if id(cells[c]) not in insys]
+            if not w['system'].molecules or not free or sum(len(x) for x in w['system'].molecules) > 18:
+                continue
+            d = rng.choice(free)
+            chains = rng.sample(['p', 'q', 'r'], rng.randint(1, 3))
+            ev.update(m=d, at=chains)
+
+            def run_chains():
+                known = {id(x) for x in cells.values()}
+                if op == 'MergeChains':
+                    MergeChains(chains=chains).run_system(w['system'])
+                else:
+                    MergeChains(all_chains=True).run_system(w['system'])
+                new = [x for x in w['system'].molecules if id(x) not in known]
+                if new:
+                    cells[d] = new[0]
+            rec.call(ev, run_chains)
+        elif op == 'BlockEdit':
+            blk = cells[4]
+            names = list(blk.nodes)
+            what = rng.choice(['AddNode', 'AddNode', 'AddInter', 'AddInter', 'RemoveNode', 'MakeEdges'])
+            if what == 'AddNode':
+                k = rng.choice(BNAMES)
+                ev = {'ev': 'AddNode', 'm': 4, 'k': k, 'a': dict(a, tag=rng.choice('pqr'))}
+                rec.call(ev, lambda: blk.add_node(k, **attr_kwargs(ev['a'])))
+            elif what == 'AddInter' and names:
+                ty = rng.choice(TR_TYPES)
+                at = [rng.choice(names) for _ in range(2 if ty == 'bonds' else 3)]
+                edge = rng.random() < 0.7
+                ev = {'ev': 'AddInter', 'm': 4, 'ty': ty, 'at': at, 'v': 0, 't': 'b', 'edge': edge}
+                rec.call(ev, lambda: blk.add_interaction(ty, tuple(at), ['b'], meta=({} if edge else {'edge': False})))
+            elif what == 'RemoveNode' and names:
+                k = rng.choice(names)
+                rec.call({'ev': 'RemoveNode', 'm': 4, 'k': k}, lambda: blk.remove_node(k))
+            elif what == 'MakeEdges':
+                rec.call({'ev': 'MakeEdges', 'm': 4}, lambda: blk.make_edges_from_interactions())
+        elif op == 'ToMol':
+            if not len(cells[4]):
+                continue
+            off, dres, dcg = rng.choice([0, 1, 7]), rng.choice([0, 2]), rng.choice([0, 3])
+            ev.update(m=m, src=4, k=off, r=dres, v=dcg)
+            rec.call(ev, lambda: store(w, m, cells[4].to_molecule(atom_offset=off, offset_resid=dres, offset_charge_group=dcg)))
+        elif op == 'MergeBlock':
+            if rng.random() < 0.15 and len(cells[4]):
+                ev = {'ev': 'Merge', 'm': 4, 'n': m}               # into a block: TypeError, nothing touched
+            else:
+                if len(cells[m]) + len(cells[4]) > 16:
+                    continue
+                ev = {'ev': 'Merge', 'm': m, 'n': 4}
+            rec.call(ev, lambda: cells[ev['m']].merge_molecule(cells[ev['n']]))
+        elif op == 'AddLog':
+            # what DoLinks does for a link with a log entry: log_entries[level][entry] += [match]; blocks get a template
+            tgt = rng.choice([m, m, 4])
+            msg = 'msg%d {X}' % rng.randint(1, 2)
+            if tgt == 4:
+                cells[4].log_entries[30].setdefault(msg, [])
+            elif present:
+                cells[tgt].log_entries[30][msg].append({'X': rng.choice(present)})
+            else:
+                continue
+            rec.load()
+    return rec.events
 
 
-FILL = {'k': -1, 'a': {'resid': 0, 'cg': 0, 'tag': ''}, 'ks': [], 'r': 0, 'oneShot': False, 'b': -1, 'ty': '', 'at': [],
-        'v': 0, 't': '', 'src': -1, 'n': -1}
+def _brief(e):
+    return [e['ev'], e.get('m'), e.get('k'), e.get('ks'), e.get('at'), e.get('n'), e.get('src')]
 
 
-def normalise_event(e):
-    """TLC records need uniform field access: give every event every field."""
-    out = dict(e)
-    if e['ev'] == 'AddEdge':
-        out['k'] = e['a']
-        out['a'] = FILL['a']
-    for k, v in FILL.items():
-        out.setdefault(k, v)
+def judge_batch(hists, book, types=TR_TYPES, edge_types=TR_EDGE, cells=TR_CELLS, blocks=TR_BLOCKS, names=BNAMES, sysff='', timeout=1800):
+    """TLC judges a batch of recorded histories. -> (states, generated, {tid: (events accepted, why, seen)})"""
+    work = tlc.scratch('c12t_')
+    try:
+        tf = tlc.write_json(work, 'trace.json', hists)
+        consts = {'Types': tlaval.to_tla(frozenset(types)), 'EdgeTypes': tlaval.to_tla(frozenset(edge_types)),
+                  'Cells': tlaval.to_tla(frozenset(cells)), 'BlockCells': tlaval.to_tla(frozenset(blocks)),
+                  'CacheModel': '"tracked"', 'SysFF': tlaval.to_tla(sysff),
+                  'BlockRank': '(' + ' @@ '.join('%s :> %d' % (tlaval.to_tla(n), i) for i, n in enumerate(sorted(names), 1)) + ')'}
+        consts.update(book)
+        res = tlc.run('Trace_MoleculeEdit', 'SPECIFICATION TraceSpec\n', consts=consts, dump=True,
+                      env={'TRACE_FILE': tf}, workdir=work, workers=1, timeout=timeout)
+        verdicts = {}
+        if res.violated:
+            last = res.error_trace[-1] if res.error_trace else {}
+            verdicts[last.get('tid', 0)] = (max(0, last.get('l', 1) - 1), 'invariant %s fails on the real object' % res.violated, ())
+            return res.distinct, res.generated, verdicts, True
+        for st in res.states():
+            tid = st['tid']
+            reached = st['l'] - 1
+            cur = verdicts.get(tid)
+            if st['why'] != 'ok':
+                verdicts[tid] = (reached, st['why'], st['seen'])
+            elif cur is None or (cur[1] == 'ok' and reached > cur[0]):
+                verdicts[tid] = (reached, 'ok', st['seen'])
+        return res.distinct, res.generated, verdicts, False
+    finally:
+        shutil.rmtree(work, ignore_errors=True)       # pool workers do not run the atexit clean-up
+
+
+def summarise(hists, verdicts, partial):
+    """Per-batch summary that travels back to the parent (never the events themselves, except rejected prefixes)."""
+    out = {'n': len(hists), 'events': sum(len(h) for h in hists), 'accepted': 0, 'rejected': [], 'seen': collections.Counter(),
+           'nontrivial': [], 'by_event': collections.Counter(), 'unjudged': 0}
+    for ti, h in enumerate(hists, 1):
+        if ti not in verdicts:
+            if partial:
+                out['unjudged'] += 1
+                continue
+            verdicts[ti] = (0, 'no-verdict', ())
+        reached, why, seen = verdicts[ti]
+        for e in h[:reached]:
+            out['by_event'][e['ev']] += 1
+        for s in seen:
+            idx, _, what = s.partition(':')
+            out['seen']['%s:%s' % (h[int(idx) - 1]['ev'], what)] += 1
+        if len(h) >= 2:
+            out['nontrivial'].append(hashlib.sha1(json.dumps([_brief(e) for e in h], sort_keys=True, default=str).encode()).hexdigest()[:16])
+        if reached != len(h) or why != 'ok':
+            out['rejected'].append({'history': minimal_prefix(h, reached), 'rejected_event_index': reached + 1,
+                                    'why': 'event %d (%s) rejected: %s' % (reached + 1, h[reached]['ev'] if reached < len(h) else '-', why)})
+        else:
+            out['accepted'] += 1
+    out['seen'] = dict(out['seen'])
+    out['by_event'] = dict(out['by_event'])
     return out
 
 
-def validate_traces(hists, ev, vd, label):
-    shards = common.chunks(hists, tlc.NCPU)
-    jobs = []
-    for si, shard in enumerate(shards):
-        jobs.append((si, [[normalise_event(e) for e in h] for h in shard]))
-    with mp.Pool(len(jobs)) as pool:
-        results = pool.map(_validate_shard, jobs)
-    k = 0
-    for (si, shard), (res_states, res_gen, verdicts) in zip(jobs, results):
-        ev.states += res_states
-        ev.transitions += res_gen
-        for ti, h in enumerate(shard, 1):
-            reached, why = verdicts.get(ti, (0, 'no-verdict'))
-            ev.traces += 1
-            ev.evaluations += 1
-            if len(h) >= 2:
-                ev.nontrivial_case([[e['ev'], e.get('m'), e.get('k'), e.get('ks'), e.get('at')] for e in h])
-            if reached != len(h) or why != 'ok':
-                vd.violation('trace-rejected', {'history': h[:reached + 1], 'rejected_event_index': reached + 1},
-                             'event %d (%s) rejected: %s' % (reached + 1, h[reached]['ev'] if reached < len(h) else '-', why))
-            k += 1
-    ev.tlc_runs.append({'run': 'TRACE Trace_MoleculeEdit %s' % label, 'traces': len(hists),
-                        'events': sum(len(h) for h in hists)})
+def minimal_prefix(h, reached):
+    """The rejected event with the world before it as a Load event (enough to re-judge and to read)."""
+    if reached == 0:
+        return h[:1]
+    prev = h[reached - 1]
+    load = {'ev': 'Load', 'm': 0, 'err': 'none', 'post': prev['post'], 'sys': prev['sys'], 'parts': prev['parts']}
+    calls = [{k: v for k, v in e.items() if k not in ('post', 'sys', 'parts')} for e in h[:reached]]
+    return {'calls_before': calls, 'judged': [load] + h[reached:reached + 1]}
 
 
-def _validate_shard(job):
-    si, shard = job
-    work = tlc.scratch('c12t_')
-    tf = tlc.write_json(work, 'trace.json', shard)
-    res = tlc.run('Trace_MoleculeEdit', 'SPECIFICATION TraceSpec\nINVARIANT TraceNoDangling\nINVARIANT TraceUniqueKeys\n',
-                  consts={'Types': '{"bonds","angles"}'}, dump=True, env={'TRACE_FILE': tf}, workdir=work, workers=1, timeout=1800)
-    if res.violated:
-        # an invariant of the property failed on a state of the real execution: report the trace id
-        last = res.error_trace[-1] if res.error_trace else {}
-        return res.distinct, res.generated, {last.get('tid', 0): (max(0, last.get('l', 1) - 2), 'invariant ' + res.violated),
-                                             '_partial': True}
-    verdicts = {}
-    for st in res.states():
-        tid = st['tid']
-        reached = st['l'] - 1
-        cur = verdicts.get(tid)
-        if st['why'] != 'ok':
-            verdicts[tid] = (reached, st['why'])
-        elif cur is None or (cur[1] == 'ok' and reached > cur[0]):
-            verdicts[tid] = (reached, 'ok')
-    return res.distinct, res.generated, verdicts
+def _random_worker(job):
+    n, nops, seed, book = job
+    rng = random.Random(seed)
+    hists = [random_history(rng, nops) for _ in range(n)]
+    states, gen, verdicts, partial = judge_batch(hists, book)
+    s = summarise(hists, verdicts, partial)
+    s.update(states=states, generated=gen)
+    if seed % 16 == 0:
+        s['sample'] = [{k: v for k, v in e.items() if k not in ('post', 'sys', 'parts')} for e in hists[0][:10]]
+    return s
+
+
+def absorb(summaries, ev, vd, label, kind='trace-rejected'):
+    tot = collections.Counter()
+    seen = collections.Counter()
+    by_event = collections.Counter()
+    for s in summaries:
+        ev.states += s.get('states', 0)
+        ev.transitions += s.get('generated', 0)
+        ev.traces += s['accepted']
+        ev.evaluations += s['n']
+        ev.nontrivial.update(s['nontrivial'])
+        tot['n'] += s['n']
+        tot['events'] += s['events']
+        tot['unjudged'] += s['unjudged']
+        seen.update(s['seen'])
+        by_event.update(s['by_event'])
+        for r in s['rejected']:
+            vd.violation(kind, r, r['why'])
+        if 'sample' in s:
+            ev.sample({'kind': 'recorded history validated by TLC (%s)' % label, 'calls': s['sample']}, limit=4)
+    if tot['unjudged']:
+        raise tlc.MachineryError('%d histories of %s were not judged' % (tot['unjudged'], label))
+    obs_ok = {k: v for k, v in seen.items() if ':differs:' not in k}
+    differs = {k: v for k, v in seen.items() if ':differs:' in k}
+    note_book(ev, obs_ok, differs, {})
+    ev.tlc_runs.append({'run': 'TRACE Trace_MoleculeEdit %s' % label, 'traces': tot['n'], 'events': tot['events'],
+                        'accepted_events_by_call': dict(by_event)})
+    return by_event
+
+
+RANDOM_NEED = {'AddNode', 'AddNodesFrom', 'SetResid', 'RemoveNode', 'RemoveNodesFrom', 'AddEdge', 'AddInter', 'AddOrReplace',
+               'RemoveInter', 'MakeEdges', 'Copy', 'Subgraph', 'GraphCopy', 'Merge', 'SetSys', 'MergeAll', 'MergeChains',
+               'MergeChainsAll', 'ToMol', 'Load'}
+
+
+def random_jobs(tier, seed, book):
+    ntr = 320 if tier == 'quick' else 8000
+    nworkers = tlc.NCPU if tier == 'quick' else 5 * tlc.NCPU
+    per = ntr // nworkers
+    return [('random', per, 40, seed * 104729 + i, book) for i in range(nworkers)], '%d random histories x 40 calls' % (per * nworkers)
 
 
 # ---------------------------------------------------------------- driver
 def run(tier, seed, ev, vd):
-    ev.rule = ('MC: every transition of the MoleculeEdit state graph; SIM: random behaviours of the same spec; TRACE: seeded '
-               'random histories of 25-60 calls on real molecules over 16 keys / 3 heap cells / 2 interaction types. '
-               'Non-trivial = history with >= 2 calls; distinct by the sequence of (call, arguments).')
-    ev.assumptions = ['TLC evaluates the specification correctly',
-                      'merging a molecule into itself, non-integer keys and operands with different force field / nrexcl '
-                      'are not generated', 'citations, log entries and nested mutable attribute values are not part of the state']
-    consts = dict(BASE)
-    if tier == 'thorough':
-        consts.update({'MaxDepth': '3', 'InitMols': '{EmptyMol, %s, %s, %s}' % (MOL_A, MOL_B, MOL_C)})
-    work = tlc.scratch('c12_')
-    dot = os.path.join(work, 'graph.dot')
-    res = tlc.run('MoleculeEdit', CFG, consts=consts, workdir=work, extra=['-dump', 'dot,actionlabels', dot], timeout=3000)
-    if res.violated:
-        raise tlc.MachineryError('MoleculeEdit (repaired design) violates %s: the specification is wrong' % res.violated)
-    ev.add_tlc('MC MoleculeEdit depth %s' % consts['MaxDepth'], res)
-    ev.exhaustive = True
-    total, nedges, acts = replay_graph(dot, ev, vd)
-    need = {'AddNode', 'AddNodesFrom', 'SetResid', 'RemoveNode', 'RemoveNodesFrom', 'AddEdge', 'AddInter', 'AddOrReplace',
-            'RemoveInter', 'Copy', 'Subgraph', 'Merge'}
-    if need - set(acts):
-        raise tlc.MachineryError('vacuous model: actions never taken: %s' % sorted(need - set(acts)))
-    if total != nedges:
-        raise tlc.MachineryError('replayed %d of %d transitions' % (total, nedges))
-    os.remove(dot)
-
-    # simulation: deeper behaviours of the same spec
-    sim_consts = dict(consts)
-    sim_consts.update({'MaxDepth': '12', 'Key': '{0,1,2,3,4,5,6}', 'MaxNodes': '8', 'MaxInter': '5', 'MaxResid': '30',
-                       'NodeSets': '{{1},{3},{2,3},{0,1},{4,5},{5,6},{6}}',
-                       'AtomSeqs': '{<<0,1>>,<<1,2>>,<<1,0>>,<<2,3>>,<<3,4>>,<<4,5>>}'})
-    nsim = 300 if tier == 'quick' else 6000
-    w2 = tlc.scratch('c12s_')
-    sres = tlc.run('MoleculeEdit', CFG, consts=sim_consts, workdir=w2, workers=tlc.NCPU, seed=seed + 1,
-                   simulate={'num': max(1, nsim // tlc.NCPU), 'file': True}, depth=13, timeout=3000)
-    if sres.violated:
-        raise tlc.MachineryError('MoleculeEdit simulation violates %s' % sres.violated)
-    files = tlc.sim_files(sres)
+    from . import c12_more
+    ev.rule = ('MC: every transition of the three MoleculeEdit state graphs (edit / system / block); SIM: random behaviours of '
+               'larger instances of the same three configurations; TRACE: seeded random histories of 40 calls on real objects '
+               '(3 molecules + 1 block + 1 system, 16 keys, 3 interaction types) and editing histories of real pipeline '
+               'molecules. Non-trivial = history with >= 2 calls; distinct by the sequence of (call, arguments).')
+    book = probe_bookkeeping()
+    ev.assumptions = [
+        'TLC evaluates the specification correctly',
+        'not generated: a molecule merged into itself; receivers whose keys mix numbers and other values; an EMPTY Block as '
+        'the receiver of a merge; operands with different force field / nrexcl only as the documented ValueError',
+        'a receiver whose keys are not numbers makes merge_molecule raise TypeError with nothing touched: modelled as that '
+        'refusal (the statement asks for fresh keys, which "highest key + 1" cannot give there; no atom is lost)',
+        '"last atom" of the receiver is the atom with the highest key (what merge_molecule documents), also when it was not '
+        'inserted last',
+        'bookkeeping (meta, citations, log entries, nrexcl, force field, highest-key cache) is modelled as found '
+        '(%s) and judged by separately named clauses that never count as violations; nested mutable values (parameter '
+        'lists, interaction meta dicts, attribute values) are observed by the sharing table only' % ', '.join('%s=%s' % kv for kv in sorted(book.items())),
+    ]
+    ev.extra['bookkeeping_as_found'] = {k: v.strip('"') for k, v in book.items()}
+    ev.extra['bookkeeping_demanded'] = {k: v.strip('"') for k, v in DEMANDED.items()}
+    # 1. every TLC run on the specification alone (3 exhaustive + 3 simulations), side by side
+    rjobs, info = tlc_phase(tier, seed, book, ev)
+    # 2. one pool for everything that touches the real code: replay of the graphs and behaviours, and the workers that record
+    #    AND judge their own share of histories (only summaries come back)
+    real_jobs, real_label = c12_more.jobs(tier, seed, book)
+    rnd_jobs, rnd_label = random_jobs(tier, seed, book)
+    random.Random(0).shuffle(rjobs)
+    jobs = real_jobs + rnd_jobs + rjobs
     with mp.Pool(tlc.NCPU) as pool:
-        outs = pool.map(_replay_behaviours, common.chunks(files, tlc.NCPU))
-    nb = sum(o[0] for o in outs)
-    ns = sum(o[1] for o in outs)
-    ev.traces += nb
-    ev.evaluations += nb
-    ev.transitions += ns
-    ev.tlc_runs.append({'run': 'SIM MoleculeEdit depth 12', 'behaviours': nb, 'steps': ns})
-    for o in outs:
-        for b in o[2]:
-            vd.violation('simulated-behaviour-mismatch', b, b['diff'])
-    if files:
-        beh = tlaval.parse_simulate_file(files[0])
-        ev.sample({'kind': 'simulated behaviour replayed on real Molecule objects',
-                   'calls': ['%s(%s)' % (a, b) for a, b, _ in beh[1:]]})
-
-    # code -> spec traces
-    ntr = 320 if tier == 'quick' else 8000
-    with mp.Pool(tlc.NCPU) as pool:
-        parts = pool.map(_hist_chunk, [(ntr // tlc.NCPU, 40, seed * 104729 + i) for i in range(tlc.NCPU)])
-    hists = [h for p in parts for h in p]
-    validate_traces(hists, ev, vd, '%d histories x 40 calls' % len(hists))
-    ev.sample({'kind': 'recorded history validated by TLC', 'calls': [
-        {k: v for k, v in e.items() if k != 'post'} for e in hists[0][:8]]})
-    for h in hists[:50]:
-        pass
+        outs = pool.map(_dispatch, jobs, chunksize=1)
+    k1, k2 = len(real_jobs), len(real_jobs) + len(rnd_jobs)
+    absorb_replay(jobs[k2:], outs[k2:], info, ev, vd)
+    by_event = absorb(outs[k1:k2], ev, vd, rnd_label)
+    if RANDOM_NEED - set(by_event):
+        raise tlc.MachineryError('random histories: no accepted event of kind %s' % sorted(RANDOM_NEED - set(by_event)))
+    c12_more.finish(tier, [x for o in outs[:k1] for x in o], real_label, ev, vd)
 
 
 def replay(scenario):
     if 'path' in scenario:
+        cfg = scenario.get('config', 'edit')
         init = scenario['init']
-        heap = {i: build_from_state({'nodes': m['nodes'], 'edges': [tuple(e) for e in m['edges']], 'inter': m['inter']})
-                for i, m in enumerate(init, 1)}
+        mols = init['mols'] if isinstance(init, dict) else init
+        st = {'mols': [dict(m, edges=[tuple(e) for e in m['edges']]) for m in mols], 'sys': (init.get('sys', ()) if isinstance(init, dict) else ())}
+        for m in st['mols']:
+            if 'bk' in m:
+                m['bk'] = dict(m['bk'], log=[{'msg': e['msg'], 'ems': e['ems']} for e in m['bk']['log']])
+        w = build_world(st, BLOCKS.get(cfg, frozenset()))
+        types = list(st['mols'][0]['inter'].keys())
         for label in scenario['path']:
             name, a = parse_label(label)
-            err = apply_action(heap, name, a)
-            print(label, '->', err, {i: common.jsonable(project(heap[i])) for i in heap})
+            err = apply_action(w, name, a)
+            pw = project_world(w, types, BLOCKS.get(cfg, frozenset()))
+            print(label, '->', err, {i: common.jsonable(strip(c)) for i, c in pw['cells'].items()}, 'system', pw['sys'])
         print('expected difference:', scenario['diff'])
+    elif 'real' in scenario:
+        from . import c12_more
+        return c12_more.replay(scenario)
     else:
         print('recorded history (validated by TLC); rejected event index', scenario.get('rejected_event_index'))
-        for e in scenario['history']:
-            print({k: v for k, v in e.items() if k != 'post'})
+        h = scenario['history']
+        for e in (h['calls_before'] if isinstance(h, dict) else h):
+            print({k: v for k, v in e.items() if k not in ('post', 'sys', 'parts')})
+        print(scenario.get('why'))
     return 0
 
 
+# ---------------------------------------------------------------- selftest
+def _tamper_cases(rng):
+    """(label, history, event index that must be rejected) for every family of recorded events."""
+    cases = []
+    wanted = ['MergeAll', 'MergeChains', 'ToMol', 'MakeEdges', 'GraphCopy', 'Merge', 'Subgraph', 'RemoveNodesFrom', 'AddOrReplace', 'RemoveInter']
+    tries = 0
+    while wanted and tries < 400:
+        tries += 1
+        h = random_history(rng, 30)
+        for i, e in enumerate(h):
+            if e['ev'] in wanted and e['err'] == 'none' and i > 0:
+                posts = dict((c, p) for c, p in e['post'])
+                tgt = e['m'] if e['m'] else (e['sys'][0] if e['sys'] else 1)
+                h2 = copy.deepcopy(h[:i + 1])
+                p = dict((c, q) for c, q in h2[i]['post'])[tgt]
+                if e['ev'] in ('MergeAll', 'Merge', 'ToMol', 'Subgraph', 'GraphCopy') and p['nodes']:
+                    p['nodes'][-1]['resid'] += 1
+                    what = 'residue number of the last atom changed in the log'
+                elif e['ev'] == 'MergeChains' and e['sys'] and len(h[i - 1]['sys']) != len(e['sys']):
+                    h2[i]['sys'] = h[i - 1]['sys']
+                    what = 'molecule list of the system left as before in the log'
+                elif e['ev'] == 'MakeEdges' and len(p['nodes']) >= 2 and len(p['edges']) < len(p['nodes']) * (len(p['nodes']) - 1) // 2:
+                    ks = sorted(n['key'] for n in p['nodes'])
+                    extra = next([a, b] for a in ks for b in ks if a < b and [a, b] not in p['edges'])
+                    p['edges'] = sorted(p['edges'] + [extra])
+                    what = 'one more bond in the log'
+                elif e['ev'] == 'RemoveNodesFrom' and p['nodes']:
+                    # a dangling interaction on the logged object: NoDangling on the real object must fail
+                    p['inter']['bonds'].append({'atoms': [97, 98], 'ver': 0, 'tag': 'x', 'edge': True})
+                    what = 'interaction between absent atoms in the log'
+                elif e['ev'] in ('AddOrReplace', 'RemoveInter') and any(p['inter'][t] for t in TR_TYPES):
+                    t = next(t for t in TR_TYPES if p['inter'][t])
+                    p['inter'][t][0]['ver'] += 1
+                    what = 'version of an interaction changed in the log'
+                else:
+                    continue
+                cases.append(('%s: %s' % (e['ev'], what), h2, i + 1))
+                wanted.remove(e['ev'])
+                break
+    return cases, wanted
+
+
+def _patched_runs():
+    """Replay of small exhaustive graphs against deliberately broken real classes: each must give a replay mismatch."""
+    import vermouth.molecule as vm
+    import vermouth.processors.merge_chains as mc
+    out = []
+    book = probe_bookkeeping()
+
+    def run_cfgs():
+        ev = common.Evidence(PID, 'quick', 0)
+        vd = common.Verdicts(PID, ev)
+        vd.violation = lambda kind, scenario, detail='': vd.violations.append((kind, None, detail))
+        model_check('quick', book, ev, vd)
+        return vd.violations
+
+    orig_sub = vm.Molecule.subgraph
+
+    def sharing_subgraph(self, nodes):
+        sub = orig_sub(self, nodes)
+        for t in list(sub.interactions):
+            if len(sub.interactions[t]) == len(self.interactions.get(t, ())):
+                sub.interactions[t] = self.interactions[t]
+        return sub
+    orig_to = vm.Block.to_molecule
+
+    def shifted_to_molecule(self, atom_offset=0, **kw):
+        return orig_to(self, atom_offset=0, **kw)
+    orig_chains = mc.merge_chains
+
+    def greedy_chains(system, chains, all_chains):
+        orig_chains(system, chains, all_chains)
+        if len(system.molecules) > 1:
+            system.molecules = system.molecules[:-1]
+    for label, target, attr, repl in (('subgraph shares its interaction lists with the source', vm.Molecule, 'subgraph', sharing_subgraph),
+                                      ('to_molecule ignores atom_offset', vm.Block, 'to_molecule', shifted_to_molecule),
+                                      ('MergeChains drops the last molecule of the system', mc, 'merge_chains', greedy_chains)):
+        old = getattr(target, attr)
+        setattr(target, attr, repl)
+        try:
+            v = run_cfgs()
+        finally:
+            setattr(target, attr, old)
+        assert v, 'patched implementation not noticed: ' + label
+        out.append('%s -> %d replay mismatches, first: %s' % (label, len(v), v[0][2][:90]))
+    return out
+
+
 def selftest(seed):
-    """(1) spec mutant: the cache exactly as the pinned commit had it must violate MergeConserves / NoDangling;
-    (2) binding: a corrupted recorded event must be rejected at that index."""
-    consts = dict(BASE)
-    consts.update({'CacheModel': '"asShipped"', 'MaxDepth': '3', 'OneShotPurges': 'TRUE'})
-    res = tlc.run('MoleculeEdit', CFG, consts=consts, timeout=900)
+    """(1) spec mutants: the cache exactly as the pinned commit had it must violate MergeConserves; one-shot removal without
+    purge must violate NoDangling; the demanded bookkeeping is clean, the bookkeeping as found is not;
+    (2) binding, code -> spec: for every family of recorded events a corrupted recording must be rejected at that event, and a
+    corrupted bookkeeping field must be noted without rejecting;
+    (3) binding, spec -> code: replaying the exhaustive graphs against deliberately broken classes must give mismatches."""
+    book = probe_bookkeeping()
+    cfgs = configs('quick', book)
+    consts = dict(cfgs['edit'], CacheModel='"asShipped"', MaxDepth='3')
+    res = tlc.run('MoleculeEdit', CFG_TEXT['edit'].replace('INVARIANT CacheSound\n', ''), consts=consts, timeout=900)
     assert res.violated, 'asShipped cache model should violate the property'
     print('selftest C12: asShipped cache model violates %s after %d steps' % (res.violated, len(res.error_trace) - 1))
-    consts.update({'CacheModel': '"repaired"', 'OneShotPurges': 'FALSE', 'MaxDepth': '2'})
-    res = tlc.run('MoleculeEdit', CFG, consts=consts, timeout=900)
+    consts = dict(cfgs['edit'], OneShotPurges='FALSE')
+    res = tlc.run('MoleculeEdit', CFG_TEXT['edit'], consts=consts, timeout=900)
     assert res.violated == 'NoDangling', res.violated
     print('selftest C12: one-shot removal without purge violates NoDangling')
+    for name in cfgs:
+        res = tlc.run('MoleculeEdit', CFG_TEXT[name] + 'INVARIANT BookClean\n', consts=dict(cfgs[name], **DEMANDED), timeout=900)
+        assert not res.violated, (name, res.violated)
+    print('selftest C12: the demanded bookkeeping (%s) respects every clause in all three configurations' % DEMANDED)
+    if book != DEMANDED:
+        res = tlc.run('MoleculeEdit', CFG_TEXT['edit'] + 'INVARIANT BookClean\n', consts=cfgs['edit'], timeout=900)
+        assert res.violated == 'BookClean'
+        print('selftest C12: the bookkeeping as found (%s) does not: %s after %d steps' % (book, sorted(res.error_trace[-1]['obs']), len(res.error_trace) - 1))
     rng = random.Random(seed)
-    hists = [random_history(rng, 12) for _ in range(6)]
-    ev = common.Evidence(PID, 'quick', seed)
-    vd = common.Verdicts(PID, ev)
-    hists[3][5]['post'][0][1]['nodes'].append({'key': 99, 'resid': 1, 'cg': 1, 'tag': 'p'})
-    hists[4] = hists[4][:4] + hists[4][5:]          # drop one event
-    validate_traces(hists, ev, vd, 'selftest')
-    got = sorted((d.split(' ')[1], d) for k, p, d in vd.violations)
-    assert len(vd.violations) >= 1 and any('event 6' in d for k, p, d in vd.violations), vd.violations
-    print('selftest C12: corrupted / truncated traces rejected:', [d[:60] for k, p, d in vd.violations])
-    for k, p, d in vd.violations:
-        try:
-            os.remove(p)
-        except OSError:
-            pass
+    cases, missing = _tamper_cases(rng)
+    assert not missing, 'no tamper case built for %s' % missing
+    clean = random_history(rng, 25)
+    noted = copy.deepcopy(clean)
+    noted[10]['post'][0][1]['bk']['cit'].append('zz')
+    hists = [c[1] for c in cases] + [clean, noted]
+    _, _, verdicts, partial = judge_batch(hists, book)
+    assert not partial
+    for ti, (label, h, idx) in enumerate(cases, 1):
+        reached, why, _ = verdicts[ti]
+        assert reached == idx - 1 and why != 'ok', (label, reached, idx, why)
+        print('selftest C12: tampered %-75s rejected at event %d: %s' % (label, idx, why[:60]))
+    assert verdicts[len(cases) + 1][:2] == (len(clean), 'ok'), verdicts[len(cases) + 1][:2]
+    r, why, seen = verdicts[len(cases) + 2]
+    assert (r, why) == (len(noted), 'ok') and '11:differs:bk' in seen, (r, why, seen)
+    print('selftest C12: untampered history accepted; a changed citation set is noted (11:differs:bk) without rejecting')
+    for line in _patched_runs():
+        print('selftest C12: broken class: ' + line)
+    from . import c12_more
+    c12_more.selftest(seed, book)
     return 0
